@@ -139,7 +139,7 @@ def run_controls(prop: str, tier: str, model: Model, base: Ctx) -> List[dict]:
                 results.append({"control": name, "rule": rule, "status": "skipped: mechanism already absent (rule fires on the tree)"})
                 continue
             raise AnalysisError(f"positive control '{name}' cannot locate its target ({e}) and rule {rule} is silent")
-        m2 = Model(model.repo, overlay={rel: src})
+        m2 = Model(model.repo, overlay={rel: src}, base=model)
         c2 = analyse(prop, tier, m2, silent=True)
         base_bad = {o.key for o in base.obs if not o.ok}
         new_bad = [o for o in c2.obs if not o.ok and o.key not in base_bad]
